@@ -272,8 +272,8 @@ func (c *Check) newBatchRules(prefix string, want map[string]bool) {
 				add("issue-after-pause", "requests are issued on a path that paused the context", n.pa)
 			}
 			// provider list = result #0 of the filter call whose result #1 was credited
-			if n.issueEv != nil && len(n.issueEv.CI.args) >= 3 {
-				if b, ok := n.issueEv.CI.args[2].Match("(res 0 $CALL)"); ok {
+			if li := c.providerListArg(u.BS, n.issueEv); li != nil {
+				if b, ok := li.Match("(res 0 $CALL)"); ok {
 					flCall = b["$CALL"].String()
 					if n.creditEv != nil {
 						amt := n.creditEv.CI.args[len(n.creditEv.CI.args)-1]
@@ -282,7 +282,7 @@ func (c *Check) newBatchRules(prefix string, want map[string]bool) {
 						}
 					}
 				} else {
-					add("list-vs-amount", "issued provider list "+shortTerm(n.issueEv.CI.args[2])+" is not result #0 of the filter", n.pa)
+					add("list-vs-amount", "issued provider list "+shortTerm(li)+" is not result #0 of the filter", n.pa)
 				}
 			}
 		}
@@ -329,4 +329,17 @@ func (c *Check) newBatchRules(prefix string, want map[string]bool) {
 	}
 	c.req(nIssue >= 1 && nSkip >= 1 && nPause >= 1, prefix+".nb-roles", unitConstruct(f, "roles"), f.Body.Pos(),
 		fmt.Sprintf("issue paths ×%d, skip paths ×%d, pay-failure paths ×%d", nIssue, nSkip, nPause))
+}
+
+// providerListArg: the argument of a call of the batch-start function that is bound to its []AccAddress parameter.
+func (c *Check) providerListArg(bs *Func, call *Event) *Term {
+	if bs == nil || call == nil || call.CI == nil {
+		return nil
+	}
+	for i, pr := range bs.Params {
+		if isAddrSlice(pr.Type()) && i < len(call.CI.args) {
+			return call.CI.args[i]
+		}
+	}
+	return nil
 }
